@@ -356,6 +356,13 @@ func runCheck(root string, args []string) int {
 			vioLines = append(vioLines, line)
 		}
 	}
+	// thorough tier: bounded stand-in for the export/import composition (C18)
+	if prop == "C18" && tier == "thorough" {
+		runBoundedSuite(root, vd, prop, seed, "genesis", "bounded/zz_bounded_genesis_test.go", "TestBoundedGenesisRoundTrip",
+			[]string{"import_of_an_export_succeeds", "second_export_identical", "continuation_results_identical", "continuation_states_identical"},
+			"16 seeded random histories x (14 steps, export, import into an emptied module store on a branch, 12 lock-step continuation steps); every fourth history starts with a delegator redelegating from two sources to one destination in one block",
+			isKnown, &knownHit, &bounded, &violations, &vioLines)
+	}
 	// thorough tier: bounded stand-in for the whole-state ledger statements (C01, C02, C03)
 	if ledFacts := map[string][]string{
 		"C01": {"custody_equals_staked_plus_pending"},
